@@ -130,6 +130,15 @@ def parseTimePeriod (l r0 : TR) (ref : DateTime) : Res :=
     | some rd => .ok (triple (buildTimex l) (buildTimex r) (buildSpan l r)) ld rd ld rd
   | _, _ => .raises
 
+/-- `parse_time_period` after the proposed repair of finding `zh-timeperiod-empty-span`
+(findings/zhtp/zh-timeperiod-empty-span.diff): a span without any component is written `PT0H`. Everything else identical. -/
+def parseTimePeriodFixed (l r0 : TR) (ref : DateTime) : Res :=
+  match parseTimePeriod l r0 ref with
+  | .ok _ b e pb pe =>
+    let r := adjustRight l r0
+    .ok (triple (buildTimex l) (buildTimex r) (if buildSpan l r = [80, 84] then [80, 84, 48, 72] else buildSpan l r)) b e pb pe
+  | x => x
+
 /-- the part-of-day codes of `get_matched_timex_range` / `TimexUtil.parse_time_of_day` -/
 inductive Tod6 | morning | midDay | afternoon | evening | daytime | night
 deriving DecidableEq, Repr
@@ -196,6 +205,23 @@ def mergeDateAndTimePeriods (fd pd : DateTime) (dateTimex tpTimex : Str) (bt et 
   | [s0, s1, s2, s3] =>
     .ok (s0 ++ dateTimex ++ [84] ++ s1 ++ dateTimex ++ [84] ++ s2 ++ [84] ++ s3) (mk fd bt) (mk fd et) (mk pd bt) (mk pd et)
   | _ => .noResult
+
+/-- `merge_date_and_time_periods` after the proposed repair of finding `zh-dtperiod-cross-midnight`
+(findings/zhtp/zh-dtperiod-cross-midnight.diff), the counterpart of the Base fix 94f8d37bb: on a DEFINITE date
+(`date_str == luis_date(future_date)`) a time range whose end clock time is not after its begin's ends on the next day —
+`+ timedelta(days=1)` on both end values (OverflowError at the end of the calendar) and the end point's TIMEX carries that
+day's date. -/
+def mergeDateAndTimePeriodsFixed (fd pd : DateTime) (dateTimex tpTimex : Str) (bt et : DateTime) : Res :=
+  let mk (d t : DateTime) : DateTime := withTime d.date (hourOf t) (minuteOf t) (secondOf t)
+  let nextDay : Bool := decide (et.secs ≤ bt.secs) && (dateTimex == formatDate fd.date)
+  match (if nextDay then addDays (mk fd et) 1 else some (mk fd et)), (if nextDay then addDays (mk pd et) 1 else some (mk pd et)) with
+  | some fe, some pe =>
+    match WF.splitOn 84 tpTimex with
+    | [s0, s1, s2, s3] =>
+      .ok (s0 ++ dateTimex ++ [84] ++ s1 ++ (if nextDay then formatDate fe.date else dateTimex) ++ [84] ++ s2 ++ [84] ++ s3)
+        (mk fd bt) fe (mk pd bt) pe
+    | _ => .noResult
+  | _, _ => .raises
 
 def countCh (c : Nat) (s : Str) : Nat := (s.filter (· == c)).length
 
@@ -434,13 +460,16 @@ def holidayYear (ref : DateTime) (yi : YearIn) : Int × Bool :=
   | .cjk whole => (ZhDT.adjust9020 (if whole < 10 then -1 else whole), true)
   | .rel s => (ZhDT.adjust9020 ((ref.date.y : Int) + s), true)
 
-/-- the SPECIFICATION of the repaired year reading (findings/zhtp/zh-holiday-year.diff): the whole digit group, the
-digit-by-digit value of a Chinese year -/
+/-- the year reading after the proposed repair (findings/zhtp/zh-holiday-year.diff): nothing is cut off the groups (for
+`.cjk whole` the whole-number reading is then of the full group) and `__convert_year` returns the digit-by-digit value
+`cjkDigits` when the whole-number reading is below 10 -/
 def holidayYearFixed (ref : DateTime) (yi : YearIn) (cjkDigits : Int) : Int × Bool :=
   match yi with
   | .absent => (ZhDT.adjust9020 ref.date.y, false)
   | .digits n => (ZhDT.adjust9020 (if n = 0 then -1 else (n : Int)), true)
-  | .cjk _ => (ZhDT.adjust9020 (if cjkDigits = 0 then -1 else cjkDigits), true)
+  | .cjk whole =>
+    let y := if whole < 10 then cjkDigits else whole
+    (ZhDT.adjust9020 (if y = 0 then -1 else y), true)
   | .rel s => (ZhDT.adjust9020 ((ref.date.y : Int) + s), true)
 
 /-- `DateTimeFormatUtil.to_str(year, 4)` = `f'{year:04d}'` -/
@@ -457,10 +486,10 @@ def getDateValue (f : ZFn) (date : Date) (ref : DateTime) (swift : Int) (moved :
     | _ => datedeltaAdd date swift 0 0
   else some date
 
-/-- `_match2date` from the holiday key and the year groups on -/
-def zhMatch2date (ref : DateTime) (key : Str) (yi : YearIn) : Holiday.Out :=
+/-- `_match2date` from the holiday key on, once the year and `has_year` are read -/
+def zhMatch2dateY (ref : DateTime) (key : Str) (yh : Int × Bool) : Holiday.Out :=
   if key = [] then .noResult else
-  let (year, hasYear) := holidayYear ref yi
+  let (year, hasYear) := yh
   match Holiday.dictGet holidayTable key with
   | none => .noResult
   | some f =>
@@ -480,5 +509,12 @@ def zhMatch2date (ref : DateTime) (key : Str) (yi : YearIn) : Holiday.Out :=
         | some fu, some pa => .ok ⟨Holiday.sXXXX ++ tail, fu, pa⟩
         | _, _ => .raises
     | _, _ => .raises
+
+/-- `_match2date` of the code as it stands -/
+def zhMatch2date (ref : DateTime) (key : Str) (yi : YearIn) : Holiday.Out := zhMatch2dateY ref key (holidayYear ref yi)
+
+/-- … and after the proposed repair of the year reading -/
+def zhMatch2dateFixed (ref : DateTime) (key : Str) (yi : YearIn) (cjkDigits : Int) : Holiday.Out :=
+  zhMatch2dateY ref key (holidayYearFixed ref yi cjkDigits)
 
 end RTV.ZhTP
